@@ -20,7 +20,9 @@ open IpcHub.Pull IpcHub.PullSpec
     status test, the read deadline before the handshake's blocking read, the guards of requestSDP /
     getSetupURL / requestSetup, the order NewStream → `go playStream`, playStream's Regist → counter →
     loop and its deferred Release → Unregist → disconnect, newRequest's credential/session rules,
-    disconnect, connect's dial timeout, the factory, and the not-found answers of the requesters. -/
+    disconnect, connect's dial timeout, the built-in NetTimeout / heart-beat values (the harness shortens
+    them through the verif override; a read deadline is only set when NetTimeout > 0), the factory, and
+    the not-found answers of the requesters. -/
 theorem c20_source_facts :
     IpcHub.Gen.pullFactsUnknown = [] ∧
     IpcHub.Gen.openCalls = ["c.connect", "c.requestHandshake", "c.requestSDP", "c.requestSetup", "c.requestPlay"] ∧
@@ -47,6 +49,9 @@ theorem c20_source_facts :
     IpcHub.Gen.setupConds = ["len(c.vControl) > 0", "err != nil", "len(c.aControl) > 0", "err != nil"] ∧
     IpcHub.Gen.setupCalls = ["c.getSetupURL", "c.requestWithResponse", "c.getSetupURL", "c.requestWithResponse"] ∧
     IpcHub.Gen.requestPlayCalls = ["c.requestWithResponse", "media.NewStream", "go c.playStream"] ∧
+    IpcHub.Gen.streamAfterPlay = true ∧
+    IpcHub.Gen.netTimeoutDefault = "time.Second * 45" ∧
+    IpcHub.Gen.netHeartbeatDefault = "time.Second * 30" ∧
     IpcHub.Gen.playStreamCalls = ["media.Regist", "stats.RtspConns.Add", "config.NetHeartbeatInterval", "config.NetTimeout",
       "c.conn.SetReadDeadline", "receive", "c.newRequest", "c.request"] ∧
     IpcHub.Gen.playStreamDefer = ["recover", "stats.RtspConns.Release", "media.Unregist", "c.disconnect"] ∧
@@ -77,18 +82,23 @@ theorem c20_facts_good : genFacts = good := by decide
     give up — or it succeeds with the complete ordered handshake, and then for EVERY play-phase event
     list that ends (EOF, reset, silence until the deadline, garbage, truncated frame, stream closed /
     replaced on the server side) every packet was delivered and registration, connection counter,
-    connection and consumers are all released. -/
+    connection and consumers are all released, and a later request pulls afresh.  The observation the
+    verdict judges (`obsOfFail` / `obsOfPlay`) is computed from the model's requests and from the world
+    its effects leave (connections, registration, connection counter, unclosed streams, dials) — no
+    field the model speaks about is assumed. -/
 theorem c20_pull_satisfies_spec (cfg : Cfg) (script : List Resp) :
     ((openPull genFacts cfg script).outcome = .notFound ∧
-        verdict cfg script (obsOfFail (openPull genFacts cfg script)) = "ok") ∨
+        verdict cfg script (obsOfFail genFacts cfg script) = "ok") ∨
     ((openPull genFacts cfg script).outcome = .stream ∧
         ∀ evs eff, playStream evs = some eff →
-          verdict cfg script (obsOfPlay (openPull genFacts cfg script) evs eff) = "ok") := by
+          verdict cfg script (obsOfPlay genFacts cfg script evs eff) = "ok") := by
   rw [c20_facts_good]; exact good_satisfies_spec cfg script
 
-/-- **Handshake: bounded, ordered, authenticated.**  Open sends at most 3·(3 + tracks) ≤ 15 requests;
-    on success the successfully answered requests are exactly OPTIONS, DESCRIBE, one SETUP per track,
-    PLAY, in this order (on failure: a prefix of it); without credentials in the URL no request carries
+/-- **Handshake: bounded, ordered, addressed, authenticated.**  Open sends at most 3·(3 + tracks) ≤ 15
+    requests; on success the successfully answered requests are exactly OPTIONS, DESCRIBE, one SETUP per
+    section of the SDP that has a control attribute — the video track's control URL with channel pair
+    0-1, then the audio track's with 2-3 (`Method.setup audio`) —, PLAY, in this order (on failure: a
+    prefix of it); OPTIONS / DESCRIBE / PLAY name the route URL; without credentials in the URL no request carries
     an Authorization; credentials appear only after a valid challenge and a challenged first attempt is
     repeated at once with the challenged scheme. -/
 theorem c20_handshake (cfg : Cfg) (script : List Resp) :
@@ -113,8 +123,34 @@ theorem c20_failure_cleanup (cfg : Cfg) (script : List Resp) :
       (cfg.listens = true ∧ r.effects = [.dial, .closeConn]) ∨ (cfg.listens = false ∧ r.effects = [] ∧ r.reqs = [])) ∧
     (r.outcome = .stream → r.effects = [.dial, .newStream]) := by
   rw [c20_facts_good]
-  exact ⟨openPull_good_outcome cfg script, openPull_notFound_effects good cfg script,
-    fun h => (openPull_stream_effects good cfg script h).1⟩
+  refine ⟨openPull_good_outcome cfg script, fun ho => ?_, fun h => (openPull_stream_effects good cfg script h).1⟩
+  rcases openPull_notFound_effects good cfg script ho with ⟨hl, h | ⟨h, _⟩⟩ | h
+  · exact Or.inl ⟨hl, h⟩
+  · cases h
+  · exact Or.inr h
+
+/-- **A pull that has ended leaves nothing behind, and a later request pulls afresh.**  The world a pull
+    acts on: open connections to the camera, the registration under the path, stats.RtspConns, streams
+    built and not closed, number of dials.  For every configuration, every camera script and every play
+    phase that ends (for a failed Open the play events are irrelevant), starting from any world in which
+    nothing is registered under the path, `GetOrCreate` ends with exactly that world again — nothing
+    registered, no connection, counter and stream count unchanged — but for one more dial (none if nobody
+    listens); hence the next request finds nothing registered, builds a new client, dials again, and —
+    Open being a function of configuration and script alone — gets the same kind of result. -/
+theorem c20_later_request_pulls_afresh (cfg : Cfg) (script : List Resp) (evs1 evs2 : List PlayEv) (w : World)
+    (hw : w.registered = false)
+    (h1 : (playStream evs1).isSome = true) (h2 : (playStream evs2).isSome = true) :
+    let p1 := getOrCreate genFacts cfg script evs1 w
+    let p2 := getOrCreate genFacts cfg script evs2 p1.1
+    p1.1 = { w with dials := w.dials + (if cfg.listens then 1 else 0) } ∧
+    p2.2 = p1.2 ∧ (p1.2 = .stream ∨ p1.2 = .notFound) ∧
+    p2.1.dials = p1.1.dials + (if cfg.listens then 1 else 0) ∧
+    p2.1.registered = false ∧ p2.1.conns = w.conns ∧ p2.1.counter = w.counter ∧ p2.1.streams = w.streams := by
+  rw [c20_facts_good]
+  have e1 := getOrCreate_ended cfg script evs1 w hw h1
+  have e2 := getOrCreate_ended cfg script evs2 { w with dials := w.dials + (if cfg.listens then 1 else 0) } hw h2
+  simp only [e1, e2]
+  exact ⟨trivial, trivial, openPull_good_outcome cfg script, trivial, hw, trivial, trivial, trivial⟩
 
 /-- **Silence is bounded** at every step of the handshake: with the read deadline the source sets, no
     camera script makes Open hang. -/
@@ -169,7 +205,9 @@ theorem c20_one_stream_lock_fact :
     model with the old facts (witnesses: corpus/C20/handshake-silence.case, open-panic.case): without
     the handshake deadline a camera that accepts and then stays silent leaves the requester blocked for
     ever with the connection open; without the recover/guards an SDP section without formats panics
-    through to the requester and skips the cleanup; the specification rejects both. -/
+    through to the requester and skips the cleanup; when the stream is built before PLAY is sent, a
+    refused PLAY leaves a stream (its conversion workers) behind although the requester gets not-found
+    and the connection is closed (seeded change C20); the specification rejects all three. -/
 theorem c20_old_facts_counterexamples :
     (openPull { good with handshakeDeadline := false }
         { hasUser := false, listens := true, urlPath := true, sdp := .tracks true true false } [.silence]).outcome = .hang ∧
@@ -179,13 +217,19 @@ theorem c20_old_facts_counterexamples :
         { hasUser := false, listens := true, urlPath := true, sdp := .noFormat } []).outcome = .panic ∧
     (openPull { good with openRecovers := false, formatGuard := false }
         { hasUser := false, listens := true, urlPath := true, sdp := .noFormat } []).effects = [.dial] ∧
-    verdict { hasUser := false, listens := true, urlPath := true, sdp := .tracks true true false } [.silence]
-      (obsOfFail (openPull { good with handshakeDeadline := false }
-        { hasUser := false, listens := true, urlPath := true, sdp := .tracks true true false } [.silence])) = "requester-hangs" ∧
+    verdict cfgVA [.silence] (obsOfFail { good with handshakeDeadline := false } cfgVA [.silence]) = "requester-hangs" ∧
     verdict { hasUser := false, listens := true, urlPath := true, sdp := .noFormat } []
-      (obsOfFail (openPull { good with openRecovers := false, formatGuard := false }
-        { hasUser := false, listens := true, urlPath := true, sdp := .noFormat } [])) = "panic-reaches-requester" := by
-  refine ⟨by decide, by decide, by decide, by decide, defect_verdicts.1, defect_verdicts.2.1⟩
+      (obsOfFail { good with openRecovers := false, formatGuard := false }
+        { hasUser := false, listens := true, urlPath := true, sdp := .noFormat } []) = "panic-reaches-requester" ∧
+    (let f : Facts := { good with streamAfterPlay := false }
+     let script : List Resp := [.status 200 .other .none, .status 200 .other .none, .status 200 .other .none,
+       .status 200 .other .none, .status 454 .other .none]
+     (openPull f cfgVA script).outcome = .notFound ∧
+     (openPull f cfgVA script).effects = [.dial, .newStream, .closeConn] ∧
+     (worldAfterOpen (openPull f cfgVA script)).streams = 1 ∧
+     verdict cfgVA script (obsOfFail f cfgVA script) = "connection-or-goroutine-leak") := by
+  refine ⟨by decide, by decide, by decide, by decide, defect_verdicts.1, defect_verdicts.2.1,
+    earlyStream_witness.1, earlyStream_witness.2.1, earlyStream_witness.2.2.1, defect_verdicts.2.2.2⟩
 
 /-! non-vacuity -/
 
@@ -195,6 +239,20 @@ example :
     let cfg : Cfg := { hasUser := true, listens := true, urlPath := true, sdp := .tracks true true false }
     let r := openPull genFacts cfg [.status 401 .digestOk .none, .status 401 .digestOk .none, .status 200 .other .none]
     r.outcome = .stream ∧ r.reqs.length = 7 ∧ (r.reqs.map (·.md5)) = [false, false, true, true, true, true, true] := by decide
+
+/-- `c20_handshake`: video and audio — the two SETUPs go to the video track, then to the audio track -/
+example :
+    let cfg : Cfg := { hasUser := false, listens := true, urlPath := true, sdp := .tracks true true false }
+    (openPull genFacts cfg []).reqs.map (·.method) = [.options, .describe, .setup false, .setup true, .play] ∧
+    needed cfg = [.options, .describe, .setup false, .setup true, .play] := by decide
+
+/-- `c20_later_request_pulls_afresh`: a pull that plays three packets and loses the camera, then a second
+    request: two dials, nothing left -/
+example :
+    let cfg : Cfg := { hasUser := false, listens := true, urlPath := true, sdp := .tracks true false false }
+    let p1 := getOrCreate genFacts cfg [] [.packet, .packet, .packet, .eof] World.init
+    let p2 := getOrCreate genFacts cfg [] [.reset] p1.1
+    p1 = ({ World.init with dials := 1 }, .stream) ∧ p2 = ({ World.init with dials := 2 }, .stream) := by decide
 
 /-- a failing one: reset while waiting for the DESCRIBE answer -/
 example :
